@@ -6,6 +6,15 @@ PROFILE = {'scenario_pref': ['noop_compose', 'epoch', 'sparse_write', 'sparse_wr
 
 
 def main(tier, seed):
-    return dbtie.db_check("C02", tier, seed, PROFILE, 650, 6000, "Prop_C02",
-                          "user callables and re are an environment the theorems quantify over; the tie instantiates them with the twin table")
+    # what a removal decides is regenerated from database.py (symbolic execution of _remove_helper, with _reset_database, remove, drop_measurement
+    # and - through py2coq_read.py - the read_op decorator) and proved equal to the model's removal (proofs/RemoveGenP.v)
+    refused = []
 
+    def regen():
+        run_translator("py2coq_read.py", "tinyflux", "gen/ReadGen.v", refused)
+        run_translator("py2coq_remove.py", "tinyflux", "gen/RemoveGen.v", refused)
+    return dbtie.db_check("C02", tier, seed, PROFILE, 650, 6000, "Prop_C02",
+                          "user callables and re are an environment the theorems quantify over; the tie instantiates them with the twin table",
+                          pre=regen, extra_cov={"translator": {"source": "tinyflux/database.py: TinyFlux._remove_helper (symbolic execution; its two loops and the try / except around the swap recognised literally), "
+                                                                         "_reset_database, remove, drop_measurement, read_op / reindex -> coq/gen/RemoveGen.v, coq/gen/ReadGen.v (regenerated on this run)",
+                                                               "refused": refused, "equivalence_theorem": "gen_remove_helper_eq, gen_reset_eq, gen_remove_eq, gen_drop_eq (C02_source_*_is_the_model, C02_source_remove_exact, C02_source_drop_exact)"}})
